@@ -64,7 +64,7 @@ class World(object):
     pass
 
 
-def setup(v):
+def setup(v, resumed=False):
     w = World()
     w.hb = {"c": [], "s": []}
     ckw = dict(minVersion=sc.VER[v], maxVersion=sc.VER[v],
@@ -79,6 +79,18 @@ def setup(v):
     p = sc.connect(client, server)
     if not p.both_ok:
         raise BaselineBroken("c16-setup:" + v, "%r %r" % (p.co, p.so))
+    if resumed:
+        # the same on a connection resumed from the first one's ticket
+        sc.do_write(p, "s", b"")
+        sc.read_all(p, "c")
+        sc.do_close(p, "c")
+        sc.do_close(p, "s")
+        client["session"] = p.c.session
+        w.hb = {"c": [], "s": []}
+        p = sc.connect(client, server)
+        if not (p.both_ok and p.c.resumed):
+            raise BaselineBroken("c16-setup-resumed:" + v,
+                                 "%r %r" % (p.co, p.so))
     w.p = p
     w.v = sc.VER[v]
     w.fifo = {"c": bytearray(), "s": bytearray()}
@@ -133,7 +145,9 @@ def fifo_check(w, side, got, where):
 
 def check(case):
     DET.reseed("C16", case.get("salt", 0), case["v"])
-    w = setup(case["v"])
+    w = setup(case["v"], case.get("resumed", False))
+    if case.get("resumed"):
+        w.labels.append("resumed-connection")
     p = w.p
     chain_before = p.s.session.clientCertChain
     history = case["ops"]
@@ -346,7 +360,17 @@ def departed(w, i, op, history):
     while hasattr(raw, "socket"):
         raw = raw.socket
     raw.tx_fault = (raw.tx_total, "pipe")
+    first = b""
+    if n % 2 == 0:
+        # the reader asks for more than will ever come: it gets what there
+        # is when the close is seen
+        o = sc.do_read(p, other(side), 1 << 20, len(w.fifo[side]) -
+                       w.taken[side] + 7)
+        if o.state == "done":
+            first = bytes(o.value)
+        w.labels.append("fin-read-beyond-end")
     got, last = drain(w, other(side))
+    got = first + got
     r = fifo_check(w, other(side), got, "departed")
     if r:
         return r
@@ -418,6 +442,16 @@ def adversarial(w, i, op, history):
         if r:
             return r
     chain_before = p.s.session.clientCertChain
+    if len(op) > 2 and op[2] == "pha_pending" and w.v == (3, 4) and \
+            name != "pha_bad_finished":
+        # the message arrives while an authentication request of the server
+        # is still unanswered (the client has not read it yet)
+        outs, _ = drive({"s": p.s.request_post_handshake_auth()}, p.link,
+                        on_stall="leave")
+        if not outs["s"].ok:
+            return bad("pha-request-fails", repr(outs["s"]),
+                       labels=w.labels)
+        w.labels.append("adv-with-pha-pending")
     if name == "pha_bad_finished":
         from vlib.deviant import Deviant
 
@@ -506,11 +540,13 @@ def cases(draw, tier):
                         max_size=14 if tier == "quick" else 30))
     z = draw(st.integers(0, 5))
     if z in (0, 1):
-        ops.append(["adv", draw(st.sampled_from(sorted(ADV)))])
+        ops.append(["adv", draw(st.sampled_from(sorted(ADV)))] + (
+            ["pha_pending"] if draw(st.booleans()) else []))
     elif z == 2:
         ops.append(["fin", draw(st.sampled_from("cs")),
                     draw(st.sampled_from([0, 1, 300, 20000]))])
-    return {"v": v, "ops": ops, "salt": draw(st.integers(0, 3))}
+    return {"v": v, "ops": ops, "salt": draw(st.integers(0, 3)),
+            "resumed": draw(st.integers(0, 3)) == 0}
 
 
 def strategy(tier):
@@ -523,11 +559,19 @@ def budget(tier):
 
 def explicit(tier, seed):
     for name in sorted(ADV):
+        yield {"v": "tls13", "ops": [["w", "c", 10], ["r", "s"],
+                                     ["adv", name, "pha_pending"]]}
         for v in ("tls13", "tls12"):
             yield {"v": v, "ops": [["w", "c", 10], ["r", "s"],
                                    ["adv", name]]}
             yield {"v": v, "ops": [["ku", "c", True], ["ku", "s", True],
                                    ["w", "s", 7], ["adv", name]]}
+    for v in ("tls13", "tls12"):
+        yield {"v": v, "resumed": True,
+               "ops": [["w", "c", 3], ["hb", "c", 5, 16], ["hb", "s", 7, 16],
+                       ["w", "s", 4], ["r", "s"], ["r", "c"], ["r", "s"],
+                       ["ku", "c", True], ["pha"], ["w", "c", 9], ["r", "s"],
+                       ["r", "c"]]}
     # both sides issue KeyUpdate(update_requested) before either reads
     yield {"v": "tls13", "ops": [["w", "c", 100], ["ku", "c", True],
                                  ["ku", "s", True], ["w", "s", 100],
